@@ -127,6 +127,34 @@ fn scenarios_for(prop: &str) -> Option<(Vec<Box<dyn Scenario>>, Report)> {
                 ],
             ),
         )),
+        "C11" => {
+            // every simulated workload of the other claimed properties, executed under the panic / progress
+            // monitor in both build profiles; only C11/* checks are reported here
+            let mut v: Vec<Box<dyn Scenario>> = Vec::new();
+            let frac = |inner: Box<dyn Scenario>, frac: u64| -> Box<dyn Scenario> { Box::new(core::Sub { inner, frac, min: 2000 }) };
+            v.push(frac(Box::new(c19::Script), 2));
+            v.push(frac(Box::new(c18::Der), 2));
+            v.push(frac(Box::new(c18::Rlp), 2));
+            v.push(frac(Box::new(c16::PersistSc), 2));
+            v.push(frac(Box::new(c16::PrintSc), 2));
+            v.push(frac(Box::new(c12::Pool), 2));
+            v.push(frac(Box::new(c08::History { faults: false }), 2));
+            v.push(frac(Box::new(c08::History { faults: true }), 2));
+            Some((
+                v,
+                base(
+                    "C11",
+                    "exploration",
+                    "SCOPED: the simulated workloads of C08, C12, C16, C18, C19 (the first half of each batch: same run index -> same plan) executed under the panic / progress monitor in two build profiles — release (opt-level 3, no debug assertions, no overflow checks) in this process and dbg (opt-level 1, debug assertions, overflow checks) in a child process — with every device fault those workloads inject. Reported: an unwind where the documentation promises a Result/Option or no panic; a documented panic that does not happen; a run whose event log differs between the profiles; a run that does not terminate (finite-tape liveness bound and a real-time watchdog). distinct_nontrivial = distinct abstract states reached across all workloads",
+                    &["every device of the other checks (RNG tape, serde format, storage medium, DER writer, text sink)", "expected-panic table derived from the documentation (DESIGN appendix C), encoded at each call site of the workloads"],
+                    &[
+                        "scope: only operations the simulated workloads call; panics that depend on operand values alone elsewhere in the API are operand-space questions and are not decided by this technique",
+                        "Odd::<BoxedUint>::random unwraps a documented-panicking call: an RNG failure there is an expected panic",
+                        "the watchdog uses a real clock outside the simulation (never feeds back); limit 300 s per run",
+                    ],
+                ),
+            ))
+        }
         _ => None,
     }
 }
@@ -150,6 +178,7 @@ fn main() {
     let mut seed: u64 = std::env::var("VERIF_SEED").ok().and_then(|s| s.trim().parse().ok()).unwrap_or(1);
     let mut root = PathBuf::from(std::env::var("CBSIM_ROOT").unwrap_or_else(|_| "/verif".into()));
     let mut file: Option<PathBuf> = None;
+    let mut out_path: Option<PathBuf> = None;
     let mut i = 3;
     while i < args.len() {
         match args[i].as_str() {
@@ -164,6 +193,10 @@ fn main() {
             "--seed" => {
                 i += 1;
                 seed = args.get(i).and_then(|s| s.parse().ok()).unwrap_or_else(|| usage());
+            }
+            "--out" => {
+                i += 1;
+                out_path = Some(PathBuf::from(args.get(i).cloned().unwrap_or_else(|| usage())));
             }
             "--root" => {
                 i += 1;
@@ -184,6 +217,10 @@ fn main() {
     println!("cbsim {} {} VERIF_SEED={} tier={} workers={} profile={}", cmd, prop, seed, tier.name(), core::workers(), if cfg!(debug_assertions) { "dbg" } else { "release" });
     let code = match cmd {
         "run" => core::run_property(rep, scenarios),
+        "digests" => {
+            let Some(o) = out_path else { usage() };
+            core::write_digests(&rep, &scenarios, &o)
+        }
         "replay" => {
             let Some(f) = file else { usage() };
             core::replay_file(&f, rep.property, &scenarios, &root)
